@@ -209,7 +209,7 @@ def generate(repo, g):
     fn = access.find('DirectObjectAccess.py__bool__')
     body = [n for n in fn.body if not (isinstance(n, ast.Expr) and isinstance(n.value, ast.Constant))]
     bool_exec = len(body) == 1 and u(body[0]) == 'return bool(self._obj)'
-    if not bool_exec and not any(isinstance(n, ast.If) for n in body):
+    if not bool_exec and not any(isinstance(n, ast.If) for b in body for n in ast.walk(b)):
         raise TieBroken('access.py: py__bool__ is neither bool(obj) nor guarded', u(fn))
     g.define('boolExecutes', 'Bool', lean_bool(bool_exec),
              'access.py:DirectObjectAccess.py__bool__ is `return bool(self._obj)`')
